@@ -25,6 +25,9 @@ const tlsHosts = 4
 
 var hostCerts [tlsHosts]tls.Certificate
 
+// caPool holds the private CA alone (for sessions that bring a TLS configuration of their own).
+var caPool = x509.NewCertPool()
+
 func hostName(i int) string { return fmt.Sprintf("host%d.c19.test", i%tlsHosts) }
 
 func init() {
@@ -40,6 +43,7 @@ func init() {
 		panic(err)
 	}
 	caCert, _ := x509.ParseCertificate(caDER)
+	caPool.AddCert(caCert)
 	f, err := os.CreateTemp("", "c19-ca-*.pem")
 	if err != nil {
 		panic(err)
